@@ -159,7 +159,8 @@ func lemma_deps_rdeps_inverse(g *DirectedTargetGraph, n, d model.BuildNode) ([]m
 //@   pure
 //@   requires [abs] absEdges(g) && endpointsAreNodes(g) && isNode(node)
 //@   ensures [direct_targets] forall d model.BuildNode :: {edge(g, d, node)} edge(g, d, node) && typeIs(d, "*model.Target") ==> inTargets(r, asPtr(d, "*model.Target"))
-//@   ensures [targets_behind_aliases] forall a model.BuildNode, d model.BuildNode :: {edge(g, a, node), edge(g, d, a)} edge(g, a, node) && typeIs(a, "*model.Alias") && edge(g, d, a) && typeIs(d, "*model.Target") ==> inTargets(r, asPtr(d, "*model.Target"))
+//@   ensures [targets_behind_aliases] forall a model.BuildNode, d model.BuildNode :: {edge(g, a, node), edge(g, d, a)} edge(g, a, node) && !typeIs(a, "*model.Target") && edge(g, d, a) && typeIs(d, "*model.Target") ==> inTargets(r, asPtr(d, "*model.Target"))
 //@ loop #1
 //@   invariant [deps_are_edges] forall j int :: {ranged()[j]} 0 <= j && j < len(ranged()) ==> edge(g, ranged()[j], node)
+//@   invariant [so_far_behind_aliases] forall j int, d model.BuildNode :: {edge(g, d, ranged()[j])} 0 <= j && j <= rangeindex && !typeIs(ranged()[j], "*model.Target") && edge(g, d, ranged()[j]) && typeIs(d, "*model.Target") ==> inTargets(targets, asPtr(d, "*model.Target"))
 //@   invariant [so_far] forall j int :: {ranged()[j]} 0 <= j && j <= rangeindex && typeIs(ranged()[j], "*model.Target") ==> inTargets(targets, asPtr(ranged()[j], "*model.Target"))
